@@ -252,10 +252,20 @@ func jsonBody(items []Item, variant int, top bool) string {
 		// only a file's top-level body (and label levels) may be an array of objects:
 		// an array in block-body position means several blocks
 		if variant == 2 && top {
+			// array-of-objects form, with "//" comment properties both as an element of their
+			// own and next to real properties
 			for i := range props {
-				props[i] = "{" + props[i] + "}"
+				if i%2 == 0 {
+					props[i] = `{"//": "comment", ` + props[i] + "}"
+				} else {
+					props[i] = "{" + props[i] + "}"
+				}
 			}
+			props = append([]string{`{"//": ["a", "comment", "object"]}`}, props...)
 			return "[" + strings.Join(props, ", ") + "]"
+		}
+		if variant == 2 {
+			props = append(props, `"//": "comment in a nested body"`)
 		}
 	case 3:
 		props = append(props, `"//": "a comment property"`)
